@@ -117,6 +117,29 @@ func checkRay2(c *kase, s *subject2, o, d V2) {
 	} else if n2 != n1 {
 		c.Violate(key("RayCollisions", "count-nil-callback"), base, "count with nil callback %d != count with callback %d", n2, n1)
 	}
+	// as in 3D: secondary queries made from inside the callback must not change the outer answer
+	if len(got) > 0 && c.Rng.Intn(3) == 0 && pan == nil {
+		size := s.ref.Size()
+		var again []model2d.RayCollision
+		n3 := s.coll.RayCollisions(ray, func(rc model2d.RayCollision) {
+			again = append(again, rc)
+			p := ray.Origin.Add(ray.Direction.Scale(rc.Scale))
+			sec := &model2d.Ray{Origin: p.Add(rc.Normal.Scale(1e-3 * size)), Direction: model2d.XY(c.Rng.NormFloat64(), c.Rng.NormFloat64())}
+			s.coll.FirstRayCollision(sec)
+			s.coll.RayCollisions(sec, nil)
+			s.coll.CircleCollision(p, 0.1*size)
+		})
+		c.Count("clause.reentrant_callback", 1)
+		same := n3 == n1 && len(again) == len(got)
+		for i := 0; same && i < len(got); i++ {
+			same = again[i].Scale == got[i].Scale && again[i].Normal == got[i].Normal
+		}
+		if !same {
+			w := base()
+			w["with_secondary_queries"] = describeHits2(again)
+			c.Violationf(key("RayCollisions", "same-result-when-the-callback-queries-the-collider"), w, "the same ray reported %d hits, then %d different hits when the callback cast secondary rays at the same collider", n1, n3)
+		}
+	}
 	dn := d.Norm()
 	minScale := math.Inf(1)
 	for _, g := range got {
